@@ -1468,4 +1468,328 @@ theorem facts_datasize_units_complete (u : Bytes) (k : Nat) (h : dsUnitShift u =
               · next hu => simp at h; subst h; rcases hu with hu | hu <;> subst hu <;> decide
               · simp at h
 
+
+/-! ### flag values as state machines: arbitrary sequences of `Set` calls -/
+
+/-- the state after a sequence of `Set` calls followed by one more is the state that last call
+leaves when started from the state the sequence left -/
+theorem aux_setAll_append {σ} (set : σ → Bytes → Res σ) (vs : List Bytes) (v : Bytes) : ∀ s : σ,
+    (setAll set s (vs ++ [v])).2 = (set (setAll set s vs).2 v).st := by
+  induction vs with
+  | nil => intro s; simp [setAll]
+  | cons x xs ih => intro s; simp only [List.cons_append, setAll]; exact ih _
+
+/-- **`-rate`: the last `Set` decides, whatever was set before** — for every initial rate, every
+earlier sequence of values (accepted or not) and a last value `N/D`, `N/unit` or bare `N` with
+`N ≠ 0`: the flag holds exactly `N` per `D` (`D` = 1 s for a bare `N`: the period of an earlier
+`-rate=100/m` does not survive a later `-rate=50`). -/
+theorem rate_sequence_last_wins (r : Rate) (vs : List Bytes) (nb : Bytes) (n : Int) (hn : IntLit nb n) (hn0 : n ≠ 0) :
+    (setAll rateSet r (vs ++ [nb])).2 = ⟨n, 1000000000⟩ ∧
+    (∀ db d, Duration.parse db = .ok d → (setAll rateSet r (vs ++ [nb ++ 47 :: db])).2 = ⟨n, d⟩) ∧
+    (∀ u ∈ bareUnits, ∃ ns : Nat, Duration.unitValue u = some ns ∧ (setAll rateSet r (vs ++ [nb ++ 47 :: u])).2 = ⟨n, ns⟩) := by
+  refine ⟨?_, ?_, ?_⟩
+  · rw [aux_setAll_append, rate_parse_no_unit _ nb n hn hn0]
+  · intro db d hd
+    rw [aux_setAll_append, rate_parse _ nb db n d hn hn0 hd]
+  · intro u hu
+    obtain ⟨ns, h1, h2⟩ := rate_parse_bare_unit (setAll rateSet r vs).2 nb u n hn hn0 hu
+    exact ⟨ns, h1, by rw [aux_setAll_append, h2]⟩
+
+/-- a last `0` (any accepted form with integer part 0) or `infinity` makes the rate unlimited and
+leaves the period of the state before it: exactly `⟨0, previous Per⟩` -/
+theorem rate_sequence_last_unlimited (r : Rate) (vs : List Bytes) :
+    (setAll rateSet r (vs ++ [infinityWord])).2 = ⟨0, (setAll rateSet r vs).2.per⟩ ∧
+    (∀ v nb db, RateSplit v nb db → IntLit nb 0 → (setAll rateSet r (vs ++ [v])).2 = ⟨0, (setAll rateSet r vs).2.per⟩) := by
+  refine ⟨?_, ?_⟩
+  · rw [aux_setAll_append, (rate_infinity_unlimited_and_guarded _).1]
+  · intro v nb db hs hz
+    rw [aux_setAll_append, (rate_zero_unlimited_and_guarded _ v nb db hs hz).1]
+
+/-- **What a failing `-rate` `Set` leaves behind** (Go assigns `f.Freq` / `f.Per` also on error): after
+a refused value the state is the old one with `Freq` replaced by what `Atoi` returned (0 on a
+syntax error, ±max on a range error), or — when the integer was fine and the duration was not —
+`⟨N, 0⟩`. Nothing else. -/
+theorem rate_failed_set_state (r : Rate) (v : Bytes) (e : Nat) (h : (rateSet r v).out = .error e) :
+    ∃ nb db, RateSplit v nb db ∧
+      (((atoi nb).2 = some e ∧ (rateSet r v).st = ⟨(atoi nb).1, r.per⟩) ∨
+       ((atoi nb).2 = none ∧ (rateSet r v).st = ⟨(atoi nb).1, 0⟩)) := by
+  have hinf : v ≠ infinityWord := by
+    intro hv; rw [hv] at h; simp [rateSet] at h
+  obtain ⟨nb, db, hs⟩ := aux_rate_split_exists v
+  refine ⟨nb, db, hs, ?_⟩
+  rw [aux_rateSet_parts r v nb db hinf hs] at h ⊢
+  generalize atoi nb = p at h ⊢
+  obtain ⟨n, eo⟩ := p
+  cases eo with
+  | some e' => simp at h; subst h; left; exact ⟨rfl, rfl⟩
+  | none =>
+    simp only [] at h ⊢
+    split at h
+    · simp at h
+    · rename_i hn
+      simp only [hn, ↓reduceIte]
+      split at h
+      · simp at h
+      · right; exact ⟨trivial, rfl⟩
+      · simp at h
+
+example : (setAll rateSet defaultRate [[49, 48, 48, 47, 109], [53, 48]]).2 = ⟨50, 1000000000⟩ := by decide   -- 100/m then 50
+example : (rateSet ⟨7, 60000000000⟩ [120]).out = .error eSyntax ∧ (rateSet ⟨7, 60000000000⟩ [120]).st = ⟨0, 60000000000⟩ := by decide
+
+/-- **`-header` / `-connect-to` / `-max-body` / `-dns-ttl`: a refused value leaves the flag's state
+exactly as it was** — except `-dns-ttl`, whose `*(f.ttl), err = ParseDuration(v)` stores 0. -/
+theorem failed_set_leaves_state (v : Bytes) :
+    (∀ h : Header, (headerSet h v).out ≠ .ok () → (headerSet h v).st = h) ∧
+    (∀ m : AddrMap, (connectToSet m v).out ≠ .ok () → (connectToSet m v).st = m) ∧
+    (∀ n : Int, (maxBodySet n v).out ≠ .ok () → (maxBodySet n v).st = n) ∧
+    (∀ d : Int, (dnsTTLSet d v).out ≠ .ok () → (dnsTTLSet d v).st = 0) := by
+  refine ⟨?_, ?_, ?_, ?_⟩
+  · intro h hne
+    rw [aux_headerSet] at hne ⊢
+    cases hp : headerParse v with
+    | none => rfl
+    | some p => rw [hp] at hne; simp at hne
+  · intro m hne
+    have := aux_connectToSet m v
+    cases hp : connectParse v with
+    | none => rw [hp] at this; obtain ⟨e, he⟩ := this; rw [he]
+    | some p => obtain ⟨k, x⟩ := p; rw [hp] at this; simp only [] at this; rw [this] at hne; simp at hne
+  · intro n hne
+    unfold maxBodySet at hne ⊢
+    split
+    · rename_i hv; simp [hv] at hne
+    · rename_i hv
+      simp only [hv, ↓reduceIte] at hne
+      cases hd : dsUnmarshal v with
+      | ok b => simp only [hd] at hne ⊢; split <;> simp_all
+      | error e => rfl
+      | panic => rfl
+  · intro d hne
+    unfold dnsTTLSet at hne ⊢
+    split
+    · rename_i hv; simp [hv] at hne
+    · rename_i hv
+      simp only [hv, ↓reduceIte] at hne
+      cases hp : Duration.parse v with
+      | ok x => simp [hp] at hne
+      | error e => rfl
+      | panic => exact absurd hp (Vegeta.Proofs.DurationRoundTrip.parse_never_panics v)
+
+/-- **`-max-body` / `-dns-ttl`: the last accepted `Set` decides**, whatever sequence came before:
+the stored value is the one that last text means, taken alone. -/
+theorem scalar_flags_last_wins (vs : List Bytes) (v : Bytes) :
+    (∀ (n0 n1 x : Int), maxBodySet n1 v = ⟨x, .ok ()⟩ → (setAll maxBodySet n0 (vs ++ [v])).2 = x) ∧
+    (∀ (d0 d1 x : Int), dnsTTLSet d1 v = ⟨x, .ok ()⟩ → (setAll dnsTTLSet d0 (vs ++ [v])).2 = x) := by
+  refine ⟨?_, ?_⟩
+  · intro n0 n1 x h
+    rw [aux_setAll_append]
+    generalize (setAll maxBodySet n0 vs).2 = s
+    unfold maxBodySet at h ⊢
+    split
+    · rename_i hv; simp [hv] at h; exact h.symm ▸ rfl
+    · rename_i hv
+      simp only [hv, ↓reduceIte] at h
+      cases hd : dsUnmarshal v with
+      | ok b => simp only [hd] at h ⊢; split <;> simp_all
+      | error e => simp [hd] at h
+      | panic => simp [hd] at h
+  · intro d0 d1 x h
+    rw [aux_setAll_append]
+    generalize (setAll dnsTTLSet d0 vs).2 = s
+    unfold dnsTTLSet at h ⊢
+    split
+    · rename_i hv; simp [hv] at h; exact h.symm ▸ rfl
+    · rename_i hv
+      simp only [hv, ↓reduceIte] at h
+      cases hp : Duration.parse v with
+      | ok y => simp [hp] at h ⊢; exact h
+      | error e => simp [hp] at h
+      | panic => simp [hp] at h
+
+/-- **`-dns-ttl` stores the parsed duration itself — no rounding**: whatever `Set` accepts other than
+`-1` is exactly `ParseDuration(v)`, in nanoseconds (1.5 s stays 1.5 s, 999 ms does not become 0). -/
+theorem dns_ttl_identity (d0 x : Int) (v : Bytes) (hv : v ≠ minusOne) (h : dnsTTLSet d0 v = ⟨x, .ok ()⟩) :
+    Duration.parse v = .ok x := ((dns_ttl_meaning d0).2.2.1 v x hv).mp h
+
+example : dnsTTLSet 0 [49, 46, 53, 115] = ⟨1500000000, .ok ()⟩ ∧ dnsTTLSet 0 [57, 57, 57, 109, 115] = ⟨999000000, .ok ()⟩ := by decide
+
+/-- printed forms the flag round-trips although `Duration.String` pads them (`1m0s`, `1h0m10s`) or
+ends in `0s` without being padded (`1m10s`): instances of `rate_string_roundtrip` -/
+example : rateSet ⟨0, 0⟩ (rateString ⟨50, 60000000000⟩) = ⟨⟨50, 60000000000⟩, .ok ()⟩ ∧
+    rateSet ⟨0, 0⟩ (rateString ⟨50, 70000000000⟩) = ⟨⟨50, 70000000000⟩, .ok ()⟩ ∧
+    rateSet ⟨0, 0⟩ (rateString ⟨50, 90000000000⟩) = ⟨⟨50, 90000000000⟩, .ok ()⟩ ∧
+    rateSet ⟨0, 0⟩ (rateString ⟨50, 3610000000000⟩) = ⟨⟨50, 3610000000000⟩, .ok ()⟩ := by decide
+
+
+/-! ### from the command line to what `attack` hands on -/
+
+def maxBodyVals : List FlagArg → List Bytes
+  | [] => []
+  | .maxBody v :: r => v :: maxBodyVals r
+  | _ :: r => maxBodyVals r
+
+def dnsTTLVals : List FlagArg → List Bytes
+  | [] => []
+  | .dnsTTL v :: r => v :: dnsTTLVals r
+  | _ :: r => dnsTTLVals r
+
+/-- **`attack` passes every parsed value on unchanged** (when the guard lets it run): the header map
+of the `-header` flag is the very map given to the targeter — same keys byte for byte, same values
+in the same order, no copy through a canonicalising `Add` —, the rate is the pacer, `-max-body`,
+`-dns-ttl` (no rounding), `-connect-to` and `-max-workers` reach the attacker as parsed. The guard
+is the only way `attack` refuses these values. (Source tie: `facts_plumbing`.) -/
+theorem attack_plumbing_identity (o : Opts) :
+    (attackGuard o.maxWorkers o.rate = true → attackPlumbing o = .error eGuard) ∧
+    (attackGuard o.maxWorkers o.rate = false → attackPlumbing o =
+      .ok { targeterHeader := o.headers, pacer := o.rate, maxWorkers := o.maxWorkers, maxBody := o.maxBody,
+            dnsTTL := o.dnsTTL, connectTo := o.connectTo }) := by
+  unfold attackPlumbing
+  constructor <;> intro h <;> simp [h]
+
+/-- flags that are not given keep the documented defaults through the whole command line -/
+theorem aux_unset_keep (args : List FlagArg) : ∀ (o o' : Opts), parseArgs o args = .ok o' →
+    (maxBodyVals args = [] → o'.maxBody = o.maxBody) ∧ (dnsTTLVals args = [] → o'.dnsTTL = o.dnsTTL) ∧
+    (rateVals args = [] → o'.rate = o.rate) ∧ (maxWorkersVals args = [] → o'.maxWorkers = o.maxWorkers) ∧
+    (headerVals args = [] → o'.headers = o.headers) ∧ (connectVals args = [] → o'.connectTo = o.connectTo) := by
+  induction args with
+  | nil => intro o o' h; simp [parseArgs] at h; subst h; simp
+  | cons a rest ih =>
+    intro o o' h
+    unfold parseArgs at h
+    split at h
+    · rename_i o1 ha
+      obtain ⟨i1, i2, i3, i4, i5, i6⟩ := ih o1 o' h
+      cases a with
+      | rate v =>
+        simp [applyArg] at ha; obtain ⟨rfl, _⟩ := ha
+        simp [maxBodyVals, dnsTTLVals, rateVals, maxWorkersVals, headerVals, connectVals] at *
+        exact ⟨i1, i2, i4, i5, i6⟩
+      | header v =>
+        simp [applyArg] at ha; obtain ⟨rfl, _⟩ := ha
+        simp [maxBodyVals, dnsTTLVals, rateVals, maxWorkersVals, headerVals, connectVals] at *
+        exact ⟨i1, i2, i3, i4, i6⟩
+      | maxBody v =>
+        simp [applyArg] at ha; obtain ⟨rfl, _⟩ := ha
+        simp [maxBodyVals, dnsTTLVals, rateVals, maxWorkersVals, headerVals, connectVals] at *
+        exact ⟨i2, i3, i4, i5, i6⟩
+      | dnsTTL v =>
+        simp [applyArg] at ha; obtain ⟨rfl, _⟩ := ha
+        simp [maxBodyVals, dnsTTLVals, rateVals, maxWorkersVals, headerVals, connectVals] at *
+        exact ⟨i1, i3, i4, i5, i6⟩
+      | connectTo v =>
+        simp [applyArg] at ha; obtain ⟨rfl, _⟩ := ha
+        simp [maxBodyVals, dnsTTLVals, rateVals, maxWorkersVals, headerVals, connectVals] at *
+        exact ⟨i1, i2, i3, i4, i5⟩
+      | maxWorkers n =>
+        simp only [applyArg] at ha
+        split at ha
+        · simp at ha; subst ha
+          simp [maxBodyVals, dnsTTLVals, rateVals, maxWorkersVals, headerVals, connectVals] at *
+          exact ⟨i1, i2, i3, i5, i6⟩
+        · simp at ha
+    · simp at h
+    · simp at h
+
+/-- **Documented defaults**: on an accepted command line every flag that was not given has its
+documented default — rate 50/1s, `-max-workers` 18446744073709551615, `-max-body` -1, `-dns-ttl` 0,
+no headers, no connect-to mapping (README usage; source tie: `facts_default_rate`,
+`facts_default_max_workers`, `facts_defaults`). -/
+theorem cmdline_unset_flags_keep_defaults (args : List FlagArg) (o : Opts) (h : parseArgs defaultOpts args = .ok o) :
+    (rateVals args = [] → o.rate = ⟨50, 1000000000⟩) ∧
+    (maxWorkersVals args = [] → o.maxWorkers = 18446744073709551615) ∧
+    (maxBodyVals args = [] → o.maxBody = -1) ∧ (dnsTTLVals args = [] → o.dnsTTL = 0) ∧
+    (headerVals args = [] → o.headers = []) ∧ (connectVals args = [] → o.connectTo = []) := by
+  obtain ⟨i1, i2, i3, i4, i5, i6⟩ := aux_unset_keep args defaultOpts o h
+  exact ⟨i3, i4, i1, i2, i5, i6⟩
+
+/-- the scalar flags: the value `attack` sees is the result of that flag's own values alone -/
+theorem aux_scalar_independent (args : List FlagArg) : ∀ (o o' : Opts), parseArgs o args = .ok o' →
+    o'.maxBody = (setAll maxBodySet o.maxBody (maxBodyVals args)).2 ∧
+    o'.dnsTTL = (setAll dnsTTLSet o.dnsTTL (dnsTTLVals args)).2 := by
+  induction args with
+  | nil => intro o o' h; simp [parseArgs] at h; subst h; simp [setAll, maxBodyVals, dnsTTLVals]
+  | cons a rest ih =>
+    intro o o' h
+    unfold parseArgs at h
+    split at h
+    · rename_i o1 ha
+      obtain ⟨i1, i2⟩ := ih o1 o' h
+      cases a with
+      | rate v => simp [applyArg] at ha; obtain ⟨rfl, _⟩ := ha; simp [maxBodyVals, dnsTTLVals, i1, i2]
+      | header v => simp [applyArg] at ha; obtain ⟨rfl, _⟩ := ha; simp [maxBodyVals, dnsTTLVals, i1, i2]
+      | maxBody v => simp [applyArg] at ha; obtain ⟨rfl, _⟩ := ha; simp [maxBodyVals, dnsTTLVals, setAll, i1, i2]
+      | dnsTTL v => simp [applyArg] at ha; obtain ⟨rfl, _⟩ := ha; simp [maxBodyVals, dnsTTLVals, setAll, i1, i2]
+      | connectTo v => simp [applyArg] at ha; obtain ⟨rfl, _⟩ := ha; simp [maxBodyVals, dnsTTLVals, i1, i2]
+      | maxWorkers n =>
+        simp only [applyArg] at ha
+        split at ha
+        · simp at ha; subst ha; simp [maxBodyVals, dnsTTLVals, i1, i2]
+        · simp at ha
+    · simp at h
+    · simp at h
+
+/-- **End to end, from the words on the command line to what the attack is run with** — for every
+command line of these flags that `vegeta attack` accepts (flags of any kinds, any number, any
+order) and that passes the guard:
+* the targeter's default headers are, under every key `k` compared byte for byte, exactly the
+  values of the well-formed `-header` flags with that key, in command-line order — nothing merged
+  under another spelling, nothing renamed (the on-the-wire oracle `header_case_on_wire` is this
+  statement observed through the targeter and the HTTP client);
+* the pacer is the state the `-rate` flags alone leave (so the last one decides,
+  `rate_sequence_last_wins`);
+* `-max-body` / `-dns-ttl` are what their own flags alone leave (the last accepted one,
+  `scalar_flags_last_wins`; `-dns-ttl` unrounded, `dns_ttl_identity`);
+* the connect-to map is the fold of the `-connect-to` flags; `-max-workers` is the last one given. -/
+theorem attack_command_end_to_end (args : List FlagArg) (p : Plumbed) (h : attackCommand args = .ok p) :
+    (∀ k, lookup p.targeterHeader k = valuesFor headerParse (headerVals args) k) ∧
+    p.pacer = (setAll rateSet defaultRate (rateVals args)).2 ∧
+    p.maxBody = (setAll maxBodySet (-1) (maxBodyVals args)).2 ∧
+    p.dnsTTL = (setAll dnsTTLSet 0 (dnsTTLVals args)).2 ∧
+    (∀ k, lookup p.connectTo k = valuesFor connectParse (connectVals args) k) ∧
+    p.maxWorkers = ((maxWorkersVals args).getLast?).getD defaultMaxWorkers ∧
+    attackGuard p.maxWorkers p.pacer = false := by
+  unfold attackCommand at h
+  cases hp : parseArgs defaultOpts args with
+  | error e => rw [hp] at h; simp at h
+  | panic => rw [hp] at h; simp at h
+  | ok o =>
+    rw [hp] at h
+    simp only [] at h
+    obtain ⟨g1, g2⟩ := attack_plumbing_identity o
+    cases hg : attackGuard o.maxWorkers o.rate with
+    | true => rw [g1 hg] at h; simp at h
+    | false =>
+      rw [g2 hg] at h
+      simp at h; subst h
+      obtain ⟨a1, a2, a3, a4⟩ := cmdline_flags_independent args defaultOpts o hp
+      obtain ⟨b1, b2⟩ := aux_scalar_independent args defaultOpts o hp
+      have hh := (headers_accumulate_case_preserved [] (headerVals args)).2.1
+      have hc := (connect_to_mapping [] (connectVals args)).1
+      simp only [defaultOpts] at a1 a2 a3 a4 b1 b2
+      refine ⟨?_, a1, b1, b2, ?_, a4, hg⟩
+      · intro k; simp only []; rw [a2, hh k]; simp [lookup]
+      · intro k; simp only []; rw [a3, hc k]; simp [lookup]
+
+-- -header "x-api-key: 1" -rate 100/m -header "X-API-KEY: 2" -rate 50 -max-workers 3
+example : (attackCommand [.header [120, 45, 97, 58, 32, 49], .rate [49, 48, 48, 47, 109], .header [88, 45, 65, 58, 32, 50], .rate [53, 48],
+      .maxWorkers 3]).isOk = true := by decide
+example : attackCommand [.rate [48]] = .error eGuard := by decide
+
+/-! #### source facts for the plumbing and the defaults -/
+
+/-- `attack()` reads the header maps straight from the flag values, hands `hdr` to both targeters and
+passes each option the parsed field itself -/
+theorem facts_plumbing :
+    Vegeta.Extracted.c19HeaderVars = [ofAscii "hdr = opts.headers.Header", ofAscii "proxyHdr = opts.proxyHeaders.Header"] ∧
+    Vegeta.Extracted.c19TargeterHeaderArgs = [ofAscii "NewJSONTargeter(hdr)", ofAscii "NewHTTPTargeter(hdr)"] ∧
+    Vegeta.Extracted.c19OptionArgs = [ofAscii "MaxWorkers(opts.maxWorkers)", ofAscii "MaxBody(opts.maxBody)",
+      ofAscii "ProxyHeader(proxyHdr)", ofAscii "DNSCaching(opts.dnsTTL)", ofAscii "ConnectTo(opts.connectTo)"] := by decide
+
+/-- the option defaults: `maxBody: vegeta.DefaultMaxBody` = `int64(-1)`; `dnsTTL` and `connectTo` are
+not in the literal (zero values: 0 and the nil map) -/
+theorem facts_defaults :
+    Vegeta.Extracted.c19DefaultMaxBodyExpr = [ofAscii "vegeta.DefaultMaxBody", ofAscii "int64(-1)"] ∧
+    ofAscii "dnsTTL" ∉ Vegeta.Extracted.c19OptsLiteralKeys ∧ ofAscii "connectTo" ∉ Vegeta.Extracted.c19OptsLiteralKeys ∧
+    ofAscii "maxWorkers" ∉ Vegeta.Extracted.c19OptsLiteralKeys := by decide
+
 end Vegeta.Props.C19
